@@ -189,7 +189,12 @@ impl Database {
                 // Mock the row count of a table for planner test.
                 name if name.starts_with("mock_rowcount_") => {
                     let table_name = name.strip_prefix("mock_rowcount_").unwrap();
-                    let count = plan[*value].as_const().as_usize().unwrap().unwrap() as u32;
+                    let count = match &plan[*value] {
+                        Expr::Constant(v) => v.as_usize().ok().flatten(),
+                        _ => None,
+                    }
+                    .ok_or_else(|| Error::Internal("invalid row count".into()))?
+                        as u32;
                     let table_id = self
                         .catalog
                         .get_table_id_by_name("postgres", table_name)
@@ -202,7 +207,7 @@ impl Database {
                         .add_row_count(table_id, count);
                     Ok(true)
                 }
-                _ => Ok(false),
+                name => Err(Error::Internal(format!("no such variable: {name}"))),
             },
             _ => Ok(false),
         }
